@@ -385,13 +385,19 @@ def check_overwrite_and_dir_placeholders(ctx, rng, tmp, data, rate, width, chann
 
 
 def check_large_skip(ctx, rng, tmp):
-    """more than 2**20 samples skipped, several channels."""
+    for e in (20, rng.choice((22, 23))):
+        _check_large_skip(ctx, rng, tmp, 2 ** e)
+
+
+def _check_large_skip(ctx, rng, tmp, big):
+    """millions of samples skipped (minutes of audio), several channels."""
     rate, width, channels = rng.choice((16000, 44100)), 1, rng.choice((2, 3))
-    n = 2 ** 20 + rng.randint(50, 4000)
+    n = big + rng.randint(50, 4000)
     unit = bytes(range(1, 252)) * 8
     data = (unit * (n * channels // len(unit) + 1))[: n * channels]
     bps = width * channels
-    for skip_samples in (2 ** 20 + rng.randint(1, 40), 2 ** 20, 2 ** 20 - 1):
+    ctx.count("load_slices_skip_of_2^%d_samples" % (big.bit_length() - 1))
+    for skip_samples in (big + rng.randint(1, 40), big, big - 1, 2 ** 20 + rng.randint(1, 40)):
         skip = skip_samples / rate
         m = rng.choice((None, 10 / rate))
         a = round(skip * rate)
@@ -413,6 +419,38 @@ def check_large_skip(ctx, rng, tmp):
         exp = data[a * bps : (None if m is None else (a + round(m * rate)) * bps)]
         if bytes(reg) != exp:
             ctx.violation("load-skip-max_read-differs-from-slice", {"case": case, "got_samples": len(bytes(reg)) // bps, "expected_samples": len(exp) // bps})
+
+
+def check_big_containers(ctx, rng, tmp):
+    """typed containers of tens of MiB (a minute of CD audio is 10 MiB), written raw and wav."""
+    import array
+
+    import numpy as np
+
+    width = rng.choice((2, 2, 4))
+    nbytes = 2 ** rng.choice((24, 24, 25)) + 4 * rng.randint(1, 5000)
+    unit = bytes(range(1, 252)) * 8
+    data = (unit * (nbytes // len(unit) + 1))[:nbytes]
+    code = {2: "h", 4: "i"}[width]
+    for cname in rng.sample(["numpy", "array", "memoryview_of_array", "bytes", "bytearray"], 3):
+        cont = {"numpy": lambda: np.frombuffer(data, dtype={2: np.int16, 4: np.int32}[width]), "array": lambda: array.array(code, data),
+                "memoryview_of_array": lambda: memoryview(array.array(code, data)), "bytes": lambda: data, "bytearray": lambda: bytearray(data)}[cname]()
+        fmt = rng.choice(("raw", "raw", "wav"))
+        path = os.path.join(tmp, f"bigcont.{fmt}")
+        case = {"op": "write-big-container", "container": cname, "format": fmt, "fmt": [16000, width, 1], "nbytes": nbytes}
+        ctx.case(repr(case), True)
+        ctx.count("writes_of_big_containers")
+        try:
+            to_file(cont, path, sr=16000, sw=width, ch=1)
+            got = wav_read(path)[0] if fmt == "wav" else open(path, "rb").read()
+        except Exception as exc:
+            ctx.violation(f"write-from-{cname}-raises:{type(exc).__name__}", {"case": case, "exception": repr(exc)[:200]})
+            continue
+        finally:
+            if os.path.exists(path):
+                os.unlink(path)
+        if got != data:
+            ctx.violation(f"written-{fmt}-bytes-differ", {"case": case, "got_len": len(got), "expected_len": len(data)})
 
 
 def check_write_containers(ctx, rng, tmp, data, rate, width, channels):
@@ -449,9 +487,12 @@ def run_shard(ctx, upto=None):
     rng = ctx.rng("cases")
     tmp = tempfile.mkdtemp(prefix="vf-c18-")
     try:
-        if upto is None and (ctx.shard == 2 or (ctx.tier == "thorough" and ctx.shard < 8)):
-            ctx.replay_info = None
+        if (upto is None and (ctx.shard == 2 or (ctx.tier == "thorough" and ctx.shard < 8))) or upto == -1:
+            ctx.replay_info = {"shard": ctx.shard, "nshards": ctx.nshards, "seed": ctx.seed, "i": -1}
             check_large_skip(ctx, ctx.rng("large"), tmp)
+        if (upto is None and (ctx.shard == 3 or (ctx.tier == "thorough" and ctx.shard >= 8))) or upto == -2:
+            ctx.replay_info = {"shard": ctx.shard, "nshards": ctx.nshards, "seed": ctx.seed, "i": -2}
+            check_big_containers(ctx, ctx.rng("bigcont"), tmp)
         for i in range(conf["random"] if upto is None else upto + 1):
             ctx.replay_info = {"shard": ctx.shard, "nshards": ctx.nshards, "seed": ctx.seed, "i": i}
             data, rate, width, channels = gen_audio(rng)
@@ -489,5 +530,5 @@ def inconclusive(merged, tier):
     c = merged["counters"]
     need = ["writes_to_file", "writes_save", "writes_wav", "writes_raw", "reads_load", "reads_from_file", "reads_lazy", "reads_eager",
             "roundtrips", "template_saves", "exists_ok_false_checks", "overwrites_ok", "load_slices", "load_slices_with_empty_result",
-            "load_slices_skip_beyond_end", "numpy_exports", "numpy_values_checked", "numpy_reexports_checked", "load_slices_large_skip", "writes_from_other_containers", "overwrites_of_longer_files", "directory_placeholder_saves"]
+            "load_slices_skip_beyond_end", "numpy_exports", "numpy_values_checked", "numpy_reexports_checked", "load_slices_large_skip", "load_slices_skip_of_2^20_samples", "writes_of_big_containers", "writes_from_other_containers", "overwrites_of_longer_files", "directory_placeholder_saves"]
     return [f"monitor never observed {k}" for k in need if c.get(k, 0) == 0]
